@@ -2,6 +2,7 @@ package mp4
 
 import (
 	"encoding/binary"
+	"fmt"
 	"io"
 
 	"github.com/Eyevinn/mp4ff/bits"
@@ -72,6 +73,9 @@ func DecodeStyp(hdr BoxHeader, startPos uint64, r io.Reader) (Box, error) {
 
 // DecodeStypSR - box-specific decode
 func DecodeStypSR(hdr BoxHeader, startPos uint64, sr bits.SliceReader) (Box, error) {
+	if hdr.payloadLen() < 8 {
+		return nil, fmt.Errorf("styp box payload %d bytes, need at least 8", hdr.payloadLen())
+	}
 	b := StypBox{data: sr.ReadBytes(int(hdr.Size) - hdr.Hdrlen)}
 	return &b, sr.AccError()
 }
